@@ -228,7 +228,7 @@ func c10Rel(t, d *term.Term, pure map[string]ref.CustomFn, rn, perm bool) bool {
 
 func c10(r *rep.Run) {
 	max := 6
-	r.SetBudget(120e9)
+	r.SetBudget(300e9)
 	if r.Thorough() {
 		max = 7
 		r.SetBudget(1800e9)
